@@ -16,7 +16,14 @@ build_coq() {
   if [ ! -f Makefile ] || [ _CoqProject -nt Makefile ]; then
     coq_makefile -f _CoqProject -o Makefile > /dev/null
   fi
-  timeout 3000 make -j16 2>&1 | tee "$BUILD/logs/coq_make.log" | grep -E "^(COQC|Error|File|make.*Error)|Axioms|Closed under" | grep -v "^COQC" || true
+  # targets: the model and the Properties files of the claimed properties (MANIFEST.json)
+  targets="Model/Dump.vo Model/LdDump.vo"
+  for p in $(python3 -c "import json;print(' '.join(c['property_id'] for c in json.load(open('$VERIF/MANIFEST.json'))['checks']))"); do
+    [ -f "Properties/$p.v" ] && targets="$targets Properties/$p.vo"
+  done
+  targets="$targets ${EXTRA_COQ_TARGETS:-}"
+  ( ulimit -v 16000000; timeout 3000 make -k -j16 COQC="timeout 1500 coqc" $targets ) > "$BUILD/logs/coq_make.log" 2>&1 || true
+  grep -E "^(Error|File )|make.*Error" "$BUILD/logs/coq_make.log" | head -20 || true
   if grep -q "Error" "$BUILD/logs/coq_make.log"; then echo "coq build FAILED"; return 1; fi
 }
 
